@@ -2,6 +2,7 @@ package rules
 
 import (
 	"fmt"
+	"strings"
 	"go/token"
 	"go/types"
 
@@ -238,14 +239,19 @@ func runC14(c *Ctx) {
 	// ---- O14.3 same filter arguments
 	sChosen := Spec{"./lib/confutil", "", "IsChosenCase"}
 	nF := 0
+	_ = sChosen
 	for _, fn := range []*ssa.Function{full, load} {
-		calls := Calls(fn, sChosen)
+		fcs := chosenFilterCalls(fn)
+		var calls []ssa.Instruction
+		for _, fc := range fcs {
+			calls = append(calls, fc.in)
+		}
 		if len(calls) != 1 {
 			c.Bad("O14.3", fk(fn)+":filter-present", fn.Pos(), fmt.Sprintf("%d IsChosenCase calls (want 1)", len(calls)))
 			continue
 		}
 		nF++
-		cc := CC(calls[0])
+		cc := &ssa.CallCommon{Args: []ssa.Value{fcs[0].tag, fcs[0].cases}}
 		tagOK := DerivesOnly(cc.Args[0], false, IsCallValue(-1, Spec{"./components/providers/http/decoders", "DecodedAmmo", "Tag"}))
 		casesOK := DerivesOnly(cc.Args[1], false, IsFieldLoadPred("Config", "ChosenCases"))
 		c.Check(tagOK && casesOK, "O14.3", fk(fn)+":filter-arguments", calls[0].Pos(), fmt.Sprintf("IsChosenCase(ammo.Tag(): %v, Config.ChosenCases: %v)", tagOK, casesOK))
@@ -279,7 +285,10 @@ func runC14(c *Ctx) {
 	{
 		// (i) in runFullScan the counter compared with Limit is incremented only after the filter passed
 		tests := limitTests(full, map[string]bool{"Limit": true})
-		calls := Calls(full, sChosen)
+		var calls []ssa.Instruction
+		for _, fc := range chosenFilterCalls(full) {
+			calls = append(calls, fc.in)
+		}
 		if len(tests) == 0 || len(calls) != 1 {
 			c.Bad("O14.2", fk(full)+":limit-counts-chosen-entries", full.Pos(), "the streaming path filters by chosencases but has no limit of its own: the decoder's limit counts filtered-out entries")
 		} else {
@@ -518,4 +527,42 @@ func c14EmptySelection(c *Ctx) {
 		}
 	}
 	c.Note("O14.8: %d ErrNoAmmo returns in the preload call tree", n)
+}
+
+type chosenFilterCall struct {
+	in         ssa.Instruction
+	tag, cases ssa.Value
+}
+
+// chosenFilterCalls: the chosencases tests of fn - confutil.IsChosenCase(tag, cases), or the call f(tag) of a filter
+// function that a function of lib/confutil made from the cases (confutil.NewChosenCasesFilter(cases)).
+func chosenFilterCalls(fn *ssa.Function) []chosenFilterCall {
+	var out []chosenFilterCall
+	EachInstr(fn, func(in ssa.Instruction) {
+		cl, ok := in.(*ssa.Call)
+		if !ok {
+			return
+		}
+		if MatchCC(&cl.Call, Spec{"./lib/confutil", "", "IsChosenCase"}) && len(cl.Call.Args) == 2 {
+			out = append(out, chosenFilterCall{in, cl.Call.Args[0], cl.Call.Args[1]})
+			return
+		}
+		if cl.Call.IsInvoke() || cl.Call.StaticCallee() != nil || len(cl.Call.Args) != 1 {
+			return
+		}
+		if b, isB := cl.Type().Underlying().(*types.Basic); !isB || b.Kind() != types.Bool {
+			return
+		}
+		for _, r := range Roots(cl.Call.Value, false) {
+			mk, _ := CallOfValue(r)
+			if mk == nil || mk.Call.StaticCallee() == nil || !strings.HasSuffix(PkgOf(mk.Call.StaticCallee()), "/lib/confutil") || len(mk.Call.Args) != 1 {
+				continue
+			}
+			if _, isSlice := mk.Call.Args[0].Type().Underlying().(*types.Slice); isSlice {
+				out = append(out, chosenFilterCall{in, cl.Call.Args[0], mk.Call.Args[0]})
+				return
+			}
+		}
+	})
+	return out
 }
